@@ -340,6 +340,22 @@ def r4_r6_merge_table(ctx, sym, model):
         want = model.oracle([a, b, c])
         if not isinstance(got, tuple) and got['label'] != want['label']:
             mism.append(('triple', (a['label'], b['label'], c['label']), got['label'], want['label']))
+    if ctx.tier == 'thorough':
+        sups = [({}, {}), ({'runtime': {True: [{}]}}, {}), ({'syntax': {'e': [{}]}}, {}), ({}, {'A': [{}]}),
+                ({}, {'X': [{'k': 1}], 'D': [{}]})]
+        for seq in itertools.product(base, repeat=3):
+            for s_, sl_ in sups:
+                n += 1
+                got, want = model.resolve(list(seq), s_, sl_), model.oracle(list(seq), s_, sl_)
+                if isinstance(got, tuple):
+                    raised.setdefault((got[1], got[2]), []).append(('triple', seq[0]))
+                elif got['label'] != want['label']:
+                    mism.append(('triple+suppression', tuple(c['label'] for c in seq), got['label'], want['label']))
+        for seq in itertools.product(base[:5], repeat=4):
+            n += 1
+            got, want = model.resolve(list(seq)), model.oracle(list(seq))
+            if not isinstance(got, tuple) and got['label'] != want['label']:
+                mism.append(('quad', tuple(c['label'] for c in seq), got['label'], want['label']))
     # category None / empty cases (never raises)
     for cfg in (dict(category=None, label='N', triggered=True), dict(category=None, label='N', triggered=False),
                 dict(category='Runtime', label='N', triggered=True)):
